@@ -1,6 +1,7 @@
 package gen
 
 import (
+	"github.com/akrennmair/updog/verifharness/evid"
 	"strings"
 
 	"github.com/akrennmair/updog/verifharness/model"
@@ -353,11 +354,24 @@ func UTF8Spec(s *DataSpec) {
 		}
 		return
 	}
-	for i, r := range s.Explicit {
+	kept := s.Explicit[:0]
+	for _, r := range s.Explicit {
 		nr := model.Row{}
+		long := false
 		for k, v := range r {
+			// names and values of tens of kilobytes make requests with many
+			// operands exceed gRPC's default 4 MiB message limit, which is the
+			// transport's business and no property's: such rows stay off the wire
+			if len(k) > 4096 || len(v) > 4096 {
+				long = true
+			}
 			nr[strings.ToValidUTF8(k, "?")] = strings.ToValidUTF8(v, "?")
 		}
-		s.Explicit[i] = nr
+		if long {
+			evid.Note("rows_with_huge_strings_kept_off_the_wire", 1)
+			continue
+		}
+		kept = append(kept, nr)
 	}
+	s.Explicit = kept
 }
